@@ -6,7 +6,7 @@ use std::io::Read;
 use std::panic::{catch_unwind, AssertUnwindSafe};
 
 use serde_json::{json, Value};
-use vaporetto::{CharacterBoundary, CharacterType, Model, Predictor, Sentence, WordWeightRecord};
+use vaporetto::{CharacterBoundary, CharacterType, Model, Predictor, Sentence, SolverType, Trainer, WordWeightRecord};
 use vaporetto_rules::{
     sentence_filters::{
         ConcatGraphemeClustersFilter, KyteaWsConstFilter, PatternMatchTagger, SplitLinebreaksFilter,
@@ -18,29 +18,29 @@ use vaporetto_rules::{
 include!(concat!(env!("OUT_DIR"), "/magic.rs"));
 
 mod mirror {
-    use bincode::Encode;
-    #[derive(Encode, Clone)]
+    use bincode::{Decode, Encode};
+    #[derive(Encode, Decode, Clone)]
     pub struct NgramData<T> {
         pub ngram: T,
         pub weights: Vec<i32>,
     }
-    #[derive(Encode, Clone)]
+    #[derive(Encode, Decode, Clone)]
     pub struct TagWeight {
         pub rel_position: u8,
         pub weights: Vec<i32>,
     }
-    #[derive(Encode, Clone)]
+    #[derive(Encode, Decode, Clone)]
     pub struct TagNgramData<T> {
         pub ngram: T,
         pub weights: Vec<TagWeight>,
     }
-    #[derive(Encode, Clone)]
+    #[derive(Encode, Decode, Clone)]
     pub struct WordWeightRecord {
         pub word: String,
         pub weights: Vec<i32>,
         pub comment: String,
     }
-    #[derive(Encode, Clone)]
+    #[derive(Encode, Decode, Clone)]
     pub struct TagModel {
         pub token: String,
         pub tags: Vec<Vec<String>>,
@@ -48,7 +48,7 @@ mod mirror {
         pub type_ngram_model: Vec<TagNgramData<Vec<u8>>>,
         pub bias: Vec<i32>,
     }
-    #[derive(Encode, Clone)]
+    #[derive(Encode, Decode, Clone)]
     pub struct ModelData {
         pub char_ngram_model: Vec<NgramData<String>>,
         pub type_ngram_model: Vec<NgramData<Vec<u8>>>,
@@ -158,6 +158,46 @@ fn model_bytes(d: &Value) -> Vec<u8> {
     let mut out = MODEL_MAGIC.to_vec();
     out.extend(bincode::encode_to_vec(&md, bincode::config::standard()).unwrap());
     out
+}
+
+/// JSON view of a serialised model (decoded with the mirror structs)
+fn model_to_json(bytes: &[u8]) -> Value {
+    if bytes.len() < MODEL_MAGIC.len() {
+        return json!({"err": "short"});
+    }
+    let r: Result<(mirror::ModelData, usize), _> = bincode::decode_from_slice(&bytes[MODEL_MAGIC.len()..], bincode::config::standard());
+    match r {
+        Err(e) => json!({"err": format!("{e}")}),
+        Ok((md, _)) => json!({
+            "char_ngrams": md.char_ngram_model.iter().map(|d| json!({"ngram": d.ngram, "weights": d.weights})).collect::<Vec<_>>(),
+            "type_ngrams": md.type_ngram_model.iter().map(|d| json!({"ngram": d.ngram, "weights": d.weights})).collect::<Vec<_>>(),
+            "dict": md.dict_model.iter().map(|d| json!({"word": d.word, "weights": d.weights, "comment": d.comment})).collect::<Vec<_>>(),
+            "bias": md.bias, "char_window_size": md.char_window_size, "type_window_size": md.type_window_size,
+            "tag_models": md.tag_models.iter().map(|t| json!({
+                "token": t.token, "tags": t.tags, "bias": t.bias,
+                "char_ngrams": t.char_ngram_model.iter().map(|d| json!({"ngram": d.ngram,
+                    "weights": d.weights.iter().map(|w| json!({"rel_position": w.rel_position, "weights": w.weights})).collect::<Vec<_>>()})).collect::<Vec<_>>(),
+                "type_ngrams": t.type_ngram_model.iter().map(|d| json!({"ngram": d.ngram,
+                    "weights": d.weights.iter().map(|w| json!({"rel_position": w.rel_position, "weights": w.weights})).collect::<Vec<_>>()})).collect::<Vec<_>>(),
+            })).collect::<Vec<_>>(),
+        }),
+    }
+}
+
+fn parse_corpus_sentence(v: &Value) -> Result<Sentence<'static, 'static>, String> {
+    let text = s(&v["text"]);
+    let r = match s(&v["kind"]).as_str() {
+        "tokenized" => Sentence::from_tokenized(&text),
+        "partial" => Sentence::from_partial_annotation(&text),
+        _ => Sentence::from_raw(text),
+    };
+    let mut sent = r.map_err(|e| format!("{e}"))?;
+    if let Some(bs) = v["labels"].as_array() {
+        for (d, x) in sent.boundaries_mut().iter_mut().zip(bs) {
+            *d = u2b(x.as_u64().unwrap_or(2));
+        }
+    }
+    Ok(sent)
 }
 
 fn b2u(b: &CharacterBoundary) -> u8 {
@@ -275,6 +315,46 @@ fn main() {
                 models.insert(s(&op["id"]), model_bytes(&op["data"]));
                 json!({"ok": true})
             }
+            "train" => guard(|| {
+                // real trainer with the real liblinear: {cfg:[cw,cn,tw,tn], dict:[..], max_len, corpus:[{kind,text,labels?}], tag_dict:[..], solver, id}
+                let cfg = u8s(&op["cfg"]);
+                let dict: Vec<String> = op["dict"].as_array().map(|a| a.iter().map(s).collect()).unwrap_or_default();
+                let mut corpus = vec![];
+                for c in op["corpus"].as_array().cloned().unwrap_or_default() {
+                    match parse_corpus_sentence(&c) {
+                        Ok(x) => corpus.push(x),
+                        Err(e) => return json!({"err": format!("corpus: {e}")}),
+                    }
+                }
+                let mut tagdict = vec![];
+                for c in op["tag_dict"].as_array().cloned().unwrap_or_default() {
+                    match parse_corpus_sentence(&c) {
+                        Ok(x) => tagdict.push(x),
+                        Err(e) => return json!({"err": format!("tag_dict: {e}")}),
+                    }
+                }
+                let corpus: &'static [Sentence<'static, 'static>] = Box::leak(corpus.into_boxed_slice());
+                let tagdict: &'static [Sentence<'static, 'static>] = Box::leak(tagdict.into_boxed_slice());
+                let solver: SolverType = s(&op["solver"]).parse().unwrap_or(SolverType::L2RegularizedL2LossSVCDual);
+                let mut trainer = match Trainer::new(cfg[0], cfg[1], cfg[2], cfg[3], dict, op["max_len"].as_u64().unwrap_or(4) as u8, tagdict) {
+                    Ok(t) => t,
+                    Err(e) => return json!({"err": format!("new: {e}")}),
+                };
+                for sent in corpus {
+                    trainer.add_example(sent);
+                }
+                let nfeat = trainer.n_features();
+                match trainer.train(0.01, 1.0, solver) {
+                    Ok(m) => {
+                        let bytes = m.to_vec().unwrap();
+                        let j = model_to_json(&bytes);
+                        models.insert(s(&op["id"]), bytes);
+                        json!({"ok": true, "n_features": nfeat, "model": j})
+                    }
+                    Err(e) => json!({"err": format!("train: {e}"), "n_features": nfeat}),
+                }
+            }),
+            "model_json" => guard(|| model_to_json(&models.get(&s(&op["model"])).cloned().unwrap_or_default())),
             "model_dump" => json!({"ok": true, "bytes": models.get(&s(&op["model"])).cloned().unwrap_or_default()}),
             "model_bytes" => {
                 models.insert(s(&op["id"]), u8s(&op["bytes"]));
@@ -554,5 +634,6 @@ fn main() {
         };
         out.push(r);
     }
-    println!("{}", serde_json::to_string(&Value::Array(out)).unwrap());
+    // liblinear prints its training log to stdout: mark where the result starts
+    println!("\n@@RESULT@@{}", serde_json::to_string(&Value::Array(out)).unwrap());
 }
